@@ -14,7 +14,8 @@ class Prop(G.InputPropBase):
     ID = "C06"
     LEAN_MODULES = ["Tpp.Props.C06"]
     REQUIRED = ["Tpp.Props.C06." + n for n in (
-        "C06_chunking", "C06_any_two_partitions", "C06_empty_delivery", "deliverAll_flatten")]
+        "C06_chunking", "C06_any_two_partitions", "C06_empty_delivery", "deliverAll_flatten",
+        "C06_window_never_stalls", "C06_no_read_posted")] + ["Tpp.windowed_run", "Tpp.windowed_deliver"]
     RULE = ("runs marked ! are delivered by a channel that already holds all deliveries and completes every read synchronously inside async_read, so that the re-arming client's callbacks nest; one line = several runs, each a partition of the SAME byte stream delivered to a fresh terminal whose client "
             "re-arms async_read from inside the callback; the last run is the one-chunk delivery.  Exhaustive: every "
             "representative item (all kinds, introducers, parameter shapes; thorough: every single-item case of C05) "
@@ -75,6 +76,24 @@ class Prop(G.InputPropBase):
                 runs.append("%s,%s,%s" % (G.hx(data[:cut]), OPS[(cut + len(data)) % len(OPS)], G.hx(data[cut:])))
             runs.append(G.hx(data))
             cs.append(Case("I " + " / ".join(runs), sweep="every-split-with-output-ops", cfgs=["C06"], tag="split-with-ops"))
+        # several items of ONE kind in a row (pointer-motion reports, the same key, the same report), delivered all at once
+        # and cut up, on terminals with each combination of the mouse capability flags: folding "redundant" events
+        # of one delivery changes the token stream with the partition
+        for btn in range(7):
+            for k in (2, 3, 5):
+                for intro in G.INTROS:
+                    items = [("m", intro, btn, 10 + 3 * j, 20 + j) for j in range(k)] + [("c", 0x78)]
+                    data = b"".join(G.item_bytes(it) for it in items)
+                    runs = ["@bh.%d,%s" % (bits, G.hx(data)) for bits in (0, 1, 2, 3)] + [G.chunkings(rng, data, "bytes"), "@bh.2," + G.chunkings(rng, data, "random")]
+                    cs.append(Case("I " + " / ".join(runs), sweep="runs-of-one-kind", cfgs=["C06"], tag="runs-of-one-kind"))
+        for it in (("k", "7", 0, None, None), ("k", "8", 3, 2, 5), ("p", "7", 6, None), ("s", "7", 1), ("e", "cr"), ("c", 0x61), ("q", "7", "n", [200], 0x7E)):
+            for k in (2, 3, 5):
+                items = [it] * k + [("c", 0x78)]
+                if not all(G.ok_pair(a, b) for a, b in zip(items, items[1:])):
+                    continue
+                data = b"".join(G.item_bytes(i) for i in items)
+                runs = ["@bh.%d,%s" % (bits, G.hx(data)) for bits in (0, 3)] + [G.chunkings(rng, data, "bytes"), "@rw.3," + G.chunkings(rng, data, "random")]
+                cs.append(Case("I " + " / ".join(runs), sweep="runs-of-one-kind", cfgs=["C06"], tag="runs-of-one-kind"))
         # wall-clock time passing between two deliveries that cut an item (a slow link, a user who pauses after ESC): the
         # decoder has no notion of time
         k = 0
@@ -106,7 +125,8 @@ class Prop(G.InputPropBase):
             else:
                 data = b"".join(rng.choice([G.item_bytes(G.random_item(rng)), G.malformed(rng, 12)]) for _ in range(rng.randrange(1, 8)))
                 tag = "random:mixed"
-            runs = [G.chunkings(rng, data, "random"), G.chunkings(rng, data, "random"), G.chunkings(rng, data, "bytes"),
+            runs = [G.chunkings(rng, data, "random"), G.with_setup(rng, G.chunkings(rng, data, "random")), G.chunkings(rng, data, "bytes"),
+                    G.with_setup(rng, G.chunkings(rng, data, "whole")),
                     "!" + G.chunkings(rng, data, "random"),     # the channel already holds the deliveries: reads complete synchronously
                     "!!" + G.chunkings(rng, data, "random"),    # … and the client re-arms before it looks at its tokens
                     G.chunkings(rng, data, "whole")]
